@@ -98,7 +98,9 @@ def rand_type(r):
     return r.pick(TYPE_FIRST) + "".join(r.pick(TYPE_REST) for _ in range(n))
 
 
-NEAR_KEYS = ["a_b", "aab", "a_", "aa", "a.b", "a-b", "a1b", "A_B", "AAB", "vcs_url", "vcsurl", "a_a", "aaa", "a_c", "aac", "z_", "zz", "Z_z"]
+NEAR_KEYS = ["a_b", "aab", "a_", "aa", "a.b", "a-b", "a1b", "A_B", "AAB", "vcs_url", "vcsurl", "a_a", "aaa", "a_c", "aac", "z_", "zz", "Z_z", "checksums", "Checksums", "checksum_sha1", "hashes", "hash", "sha256", "md5", "digest", "integrity", "repository_urls", "vcs_urls",
+             "download_urls", "types", "classifiers", "platforms", "file_names", "checksum.sha1", "checksum-sha256",
+             "vers", "version", "name", "namespace", "subpath", "qualifiers", "purl", "pkg", "scheme", "Vers"]
 
 
 def rand_key(r):
@@ -184,7 +186,7 @@ SPEC_DEFAULTS = {
     "nuget": [("repository_url", "https://www.nuget.org"), ("repository_url", "https://api.nuget.org/v3/index.json")],
     "golang": [("repository_url", "https://proxy.golang.org"), ("type", "module"), ("vcs_url", "git+https://github.com/a/b")],
 }
-GENERIC_DEFAULTS = [("arch", "noarch"), ("arch", "any"), ("os", "linux"), ("type", "jar"), ("platform", "ruby"), ("distro", "default"),
+GENERIC_DEFAULTS = [("vers", "vers:npm/>=1.2.0|<2.0.0"), ("vers", "*"), ("version", "2.0"), ("name", "other"), ("checksums", "SHA1:AB,MD5:Cd"), ("checksums", "verified"), ("hashes", "sha256:ABCD"), ("integrity", "sha512-AbC/+="), ("arch", "noarch"), ("arch", "any"), ("os", "linux"), ("type", "jar"), ("platform", "ruby"), ("distro", "default"),
                     ("repository_url", "https://example.org"), ("epoch", "0"), ("ext", "tar.gz"),
                     # values with a tempting normal form of their own (URLs, architecture aliases, booleans)
                     ("repository_url", "HTTPS://Example.ORG:443/a/../b/?x=1#f"), ("repository_url", "https://example.org/"),
